@@ -43,7 +43,7 @@ DEV = {
 for name, (over, inv, kw) in DEV.items():
     gen('Dev_Log_%s.cfg' % name, invs=inv, **kw, **over)
 # simulation (larger constants; EmitSched prints the history at every visited state)
-gen('Sim_Log_a.cfg', P='{"p1","p2","p3"}', K=3, sh='ShAll', faults=3, crashes=2, inline=0, interval=1, invs="EmitSched " + CORE, view=False)
+gen('Sim_Log_a.cfg', P='{"p1","p2","p3"}', K=3, sh='ShAll', faults=3, crashes=1, inline=0, interval=1, invs="EmitSched " + CORE, view=False)
 gen('Sim_Log_b.cfg', P='{"p1","p2","p3"}', K=3, sh='ShOk12', faults=2, crashes=1, inline=2, interval=2, invs="EmitSched " + CORE, view=False)
 gen('Sim_Log_c.cfg', P='{"p1","p2"}', K=4, sh='ShOk12', faults=2, crashes=1, inline=3, interval=3, invs="EmitSched " + CORE, view=False)
 import json
